@@ -44,6 +44,55 @@ theorem constants (leaf ref) :
   · simp [parseCheck, evalTree]
   · simp [parseCheck, evalTree]
 
+/-- `andOf` / `orOf` (a single member is returned as is) denote AND / OR of their members. -/
+theorem andOf_den (ρ) (ts : List Tree) : (andOf ts).den ρ = ts.all (Tree.den ρ) := by
+  match ts with
+  | [] => simp [andOf, den_and]
+  | [t] => simp [andOf]
+  | a :: b :: r => simp [andOf, den_and]
+theorem orOf_den (ρ) (ts : List Tree) : (orOf ts).den ρ = ts.any (Tree.den ρ) := by
+  match ts with
+  | [] => simp [orOf, Tree.den]
+  | [t] => simp [orOf]
+  | a :: b :: r => simp [orOf, den_or]
+
+/-- what one non-empty member of the outer list contributes: the AND of its checks -/
+def memberDen (ρ : Str → Str → Bool) (x : JVal) : Option Bool :=
+  if !x.truthy then none else (innerStrings x).map fun ss => ss.all fun s => (parseCheck s).den ρ
+
+theorem listRuleMembers_den (ρ) (xs : List JVal) (h : ∀ x ∈ xs, (innerStrings x).isSome) :
+    (listRuleMembers xs).any (Tree.den ρ) = (xs.filterMap (memberDen ρ)).any id := by
+  induction xs with
+  | nil => simp [listRuleMembers]
+  | cons x r ih =>
+    have hr : ∀ y ∈ r, (innerStrings y).isSome := fun y hy => h y (by simp [hy])
+    have hx := h x (by simp)
+    unfold listRuleMembers
+    cases ht : x.truthy with
+    | false => simp [ht, memberDen, ih hr]
+    | true =>
+      cases hi : innerStrings x with
+      | none => simp [hi] at hx
+      | some ss =>
+        simp only [Bool.not_true, Bool.false_eq_true, ↓reduceIte, List.any_cons, andOf_den, List.all_map,
+          List.filterMap_cons, memberDen, ht, hi, Option.map_some, id, ih hr]
+        rfl
+
+/-- **List-of-lists rules**: a well-shaped value decides as the OR, over its non-empty members,
+of the AND of the member's checks (a bare string is a one-check member); the empty list
+allows; a list whose members are all empty denies. -/
+theorem list_rule (ρ) (xs : List JVal) (t : Str) (h : ∀ x ∈ xs, (innerStrings x).isSome) :
+    (parseValue (.arr xs t)).den ρ =
+      if xs.isEmpty then true else (xs.filterMap (memberDen ρ)).any id := by
+  have hs : listRuleShape (.arr xs t) = some xs := by
+    simp only [listRuleShape]
+    have : xs.all (fun x => (innerStrings x).isSome) = true := by simpa [List.all_eq_true] using h
+    simp [this]
+  simp only [parseValue, parseListRule, hs]
+  cases xs with
+  | nil => simp [Tree.den]
+  | cons x r => simp only [List.isEmpty_cons, Bool.false_eq_true, ↓reduceIte, orOf_den, listRuleMembers_den ρ _ h]
+
 theorem render_ne_nil : ∀ {n} (e : E n), e.render ≠ []
   | _, .leaf _ => by simp [E.render]
   | _, .paren _ => by simp [E.render]
